@@ -6,7 +6,7 @@ from ..engine import pyflow, tables
 from ..engine.pyindex import walk_no_nested, is_self_attr
 from ..rules import tree as tree_rules
 from ..rules.pC07 import Eval, Obj, Unsupported, Method, RepoFn
-from ..rules import sC40
+from ..rules import sC40, s4C40
 
 ID = 'C40'
 TECHNIQUE = ('decision-table extraction: TypeInference.safe_spanning_type, the handlers of MarkOverflowingArithmetic and NameNode.infer_type are evaluated over '
@@ -35,15 +35,22 @@ DECIDES = ('(a) C40-SST: for every C integer / enum kind that is not bint (plain
            '(k) C40-DEL: NameDeletion.infer_type answers a Python object type for every C kind; C40-RANGEVAR: for range() with 1, 2, 3 arguments FlowControl.mark_forloop_target marks the '
            'loop variable with the first two arguments and with start+step; (l) C40-SST also: an overflowing Py_UCS4 becomes str, not int; '
            'C40-WIRE now sees every spanning_type(...) call of infer_types() including those in else-branches of its nested helpers. '
+           '(m) C40-SELECT (rules/s4C40.py): PyrexTypes.independent_spanning_type - the type of `a and b`, `a or b`, `a if c else b` - over all ordered pairs of pure-Python value kinds '
+           '(+ builtin bool) and the three-operand nestings with one bool: a bool together with a value of another Python type is never a C type, a Python int / str / object operand is '
+           'never stored in a C type, a C result is never narrower than a C operand of its kind; C40-SELWIRE: infer_type() and the `self.type = ...` store of every operand-selecting '
+           'expression class (CondExprNode, BoolBinopNode; found from either site) evaluated on stub operands of every kind pair satisfy the same table, i.e. they call a function with '
+           'these properties and hand it the types of BOTH operands. '
            'Written but NOT armed (pending findings, both report the unmodified tree): C40-CLOSURE (FINDING_2: entry.might_overflow is stored on the InnerEntry of a closure variable only) and '
-           'C40-FORWARD (FINDING_3: CondExprNode / BoolBinopNode, whose value is one of their operands, are visited as "safe").')
+           'C40-FORWARD (FINDING_3: CondExprNode / BoolBinopNode, whose value is one of their operands, are visited as "safe"). '
+           'Round six, written but NOT armed: C40-SELCHAR (a Py_UCS4 operand of and / or / a conditional expression shares a number type with a number: '
+           '`s = "abc"; n = 5; x = s[1] if c else n` returns 98 on the unmodified tree).')
 NOT_DECIDED = ('the spanning-type computation for pairs without a bool (C40-PYTYPE, the general "the chosen C type has the Python type of every merged kind" table, is written but NOT armed: '
                'it reports int+float -> C double etc. on the unmodified tree, pending finding), which assignments are collected (MarkParallelAssignments, control flow), result types of '
                'arithmetic nodes, everything value-dependent; definedness-aware inference (known finding K4, rule of C21e) is not re-checked here; float/double inference '
                '(documented as safe) and the aggressive mode are outside the property; '
                'the other branches of FlowControl.mark_forloop_target (enumerate / reversed / generic iteration; C40-RANGEVAR decides range() with 1-3 arguments), whether an unresolved assignment type can reach the first pass '
                '(infer_unresolved_guard), that set_entry_type types every closure entry (infer_set_entry_outer_only); single-operand value wrappers '
-               '(EvalWithTempExprNode: `max(x, 5) * big` wraps on the unmodified tree, see FINDING_3) and bint arithmetic (`b = not k; b * big`) are open.')
+               '(EvalWithTempExprNode: `max(x, 5) * big` wraps on the unmodified tree, see FINDING_3) and bint arithmetic (`b = not k; b * big`) are open; C40-SELECT does not decide int/float/complex mixing of selected operands (`a if c else b` with a C long and a C double is a C double: the K11 class) nor operand kinds that need explicit C types; C40-SELWIRE models two-operand choices (a class with more forwarded operands is listed as info).')
 ASSUMPTIONS = [
     'type stubs: every is_* flag that a scenario does not set is 0 (class default of PyrexType); integer-like kinds coerce to Python objects (can_coerce_to_pyobject is True)',
     'the scenario type is already simple: PyrexTypes.remove_cv_ref is modelled as the identity and reduce(f, [T]) as T (one assignment)',
@@ -85,6 +92,9 @@ MUTATIONS = [
     ('Cython/Compiler/PyrexTypes.py', 'spanning_type: the `py_object_type` early return dropped (same table: _spanning_type answers py_object_type)', 'silent, correctly'),
     # --- fourth round: see /verif/mutants/C40/*/meta.json (34 mutants: 24 breaking, 10 behaviour preserving), replayed by the thorough tier
     ('Cython/Compiler/PyrexTypes.py', 'widest_numeric_type returns the narrower rank', 'C40-PYTYPE / C40-WIDTH: caught (before: ANALYSIS-ERROR, the embedded control of C40-PYTYPE called the repository - now self-contained)'),
+    # --- sixth round (seed C40h): /verif/mutants/C40/sel_*/meta.json (9 breaking: all C40-SELECT / C40-SELWIRE; 5 behaviour preserving: silent)
+    ('Cython/Compiler/PyrexTypes.py', 'seed C40h: independent_spanning_type tests resolved_type1 twice in the bint guard', 'C40-SELECT bool: caught'),
+    ('Cython/Compiler/ExprNodes.py', 'CondExprNode.infer_type spans true_val with itself / BoolBinopNode.analyse_types passes operand1.type twice / either site calls spanning_type', 'C40-SELWIRE: caught'),
     # behaviour preserving (all silent)
     ('Cython/Compiler/TypeInference.py', 'find_spanning_type: bint test rewritten `PyrexTypes.c_bint_type in (type1, type2)`', None),
     ('Cython/Compiler/TypeInference.py', 'find_spanning_type: parameters renamed, bint test hoisted into an early return in De Morgan form', None),
@@ -544,4 +554,6 @@ def run(ctx):
             sC40.rule_ENV(ctx, vis), sC40.rule_WIDTH(ctx), sC40.rule_LITRANGE(ctx), sC40.rule_NONE(ctx), sC40.rule_DEL(ctx), sC40.rule_RANGEVAR(ctx),
             sC40.rule_CLOSURE(ctx),          # known finding K12: might_overflow of a closure variable is set on the InnerEntry only (the repair changes inference results that upstream doctests pin)
             sC40.rule_FORWARD(ctx, vis),     # found CondExprNode / BoolBinopNode visited as "safe" (repaired: a4c81cd1f)
+            s4C40.rule_SELECT(ctx), s4C40.rule_SELWIRE(ctx),
+            # s4C40.rule_SELCHAR(ctx),       # pending finding (round six, FINDING_1): independent_spanning_type(Py_UCS4, C long) is C long on the unmodified tree
             ]
